@@ -34,6 +34,7 @@ type c10Variant struct {
 	LayoutKeys string
 	RelExe     bool // the inspection runs an executable given by a relative path with a separator
 	Minority   bool // a third authorized functionary's valid link reports other products than the two that agree
+	TwoIDs     bool // the layout lists functionary A's key under two key ids (two lists of key id hash algorithms); both are authorized and each signs a link - the two links differ
 	MultiAlg   bool // product and material carry two digest algorithms: one agrees, the other does not (a MATCH rule compares them)
 }
 
@@ -50,6 +51,9 @@ func (v c10Variant) String() string {
 	}
 	if v.MultiAlg {
 		s += " two-digest-algorithms-one-agrees"
+	}
+	if v.TwoIDs {
+		s += " one-key-under-two-ids"
 	}
 	return s
 }
@@ -190,6 +194,18 @@ func buildC10(c *core.Ctx, v c10Variant, root string) (*c10Chain, error) {
 			layout.Steps = append(layout.Steps, st3)
 			layout.Keys[D3.Pub.KeyID] = D3.Pub
 		}
+	}
+	if v.TwoIDs {
+		var a2priv, a2pub intoto.Key
+		if err := a2priv.LoadKeyReader(strings.NewReader(A.PrivPEM), A.Priv.Scheme, []string{"sha256"}); err != nil {
+			return nil, err
+		}
+		if err := a2pub.LoadKeyReader(strings.NewReader(A.PubPEM), A.Pub.Scheme, []string{"sha256"}); err != nil {
+			return nil, err
+		}
+		layout.Keys[a2pub.KeyID] = a2pub
+		layout.Steps[0].PubKeys = append(layout.Steps[0].PubKeys, a2pub.KeyID)
+		gen.WriteLink(ch.linkDir, gen.NewLink("build", nil, gen.Artifacts(map[string]string{"bin/app": "built on the other machine\n"})), a2priv, v.DSSE)
 	}
 	signers := []intoto.Key{owner.Priv}
 	ch.keys = gen.KeyMap(owner)
@@ -351,6 +367,7 @@ func runC10(c *core.Ctx) {
 			variants = append(variants, c10Variant{Threshold: 1, DSSE: dsse, RunDir: runDir, RelExe: true})
 			variants = append(variants, c10Variant{Threshold: 2, DSSE: dsse, RunDir: runDir, Minority: true})
 			variants = append(variants, c10Variant{Threshold: 1, DSSE: dsse, RunDir: runDir, MultiAlg: true})
+			variants = append(variants, c10Variant{Threshold: 1, DSSE: dsse, RunDir: runDir, TwoIDs: true})
 		}
 	}
 	names := []string{"none", "p", "q", "r"}
@@ -648,6 +665,9 @@ func variantClass(v c10Variant) string {
 	if v.MultiAlg {
 		s += ", two digest algorithms of which one agrees"
 	}
+	if v.TwoIDs {
+		s += ", one key under two key ids with differing links"
+	}
 	return s
 }
 
@@ -655,7 +675,7 @@ func init() {
 	core.Register(&core.Property{
 		ID:    "C10",
 		Level: "exploration",
-		Rule: "chains biased to the anchors: step with one key-authorized and one certificate-authorized link (threshold 0, 1 and 2; the two links agreeing or disagreeing), certificate constraint lists that are not sorted, rules / expected command / inspection run with {PRODUCT} and {MARK} markers, a link whose artifact path needs cleaning (./bin//app) consumed by a MATCH rule, optionally two steps delegated to sublayouts of two functionaries and (legacy wrapper) a third one to a functionary who is authorized through a certificate constraint, two supplied layout keys (both signed / second without a signature / second with a corrupt signature), an inspection executable given by a relative path, three valid links of which one disagrees, a MATCH rule between artifacts that carry two digest algorithms of which only one agrees; the layout has an intermediate CA of its own and the caller passes a list of additional intermediates with spare capacity whose backing array is compared before/after; 2 wrappers x 2 entry points; all histories of length<=2 plus 12 of length 3 (quick) / all of length<=3 plus 30 of length 4 (thorough) over the dictionaries {none, p (accepting), q (rejecting), r (a value containing another parameter's marker)} on ONE in-memory layout object: every outcome (verdict, summary, executed marker) must equal the outcome of a freshly loaded copy, and the serialisation of the layout object (payload, signatures, dumped envelope), of the key map and of the dictionary, and (entry point with a run directory of its own) the content of the inspected directory must be unchanged after every call; two sound chains whose layouts define one key id with different key material are verified alternately (6 verifications, all accepted); a sound nested chain verified alternately with a broken one, 30 rounds (failures leave nothing behind); each baseline is repeated R=16 (quick) / 64 (thorough) times and each history R/4 times with fresh maps. " +
+		Rule: "chains biased to the anchors: step with one key-authorized and one certificate-authorized link (threshold 0, 1 and 2; the two links agreeing or disagreeing), certificate constraint lists that are not sorted, rules / expected command / inspection run with {PRODUCT} and {MARK} markers, a link whose artifact path needs cleaning (./bin//app) consumed by a MATCH rule, optionally two steps delegated to sublayouts of two functionaries and (legacy wrapper) a third one to a functionary who is authorized through a certificate constraint, two supplied layout keys (both signed / second without a signature / second with a corrupt signature), an inspection executable given by a relative path, three valid links of which one disagrees, a MATCH rule between artifacts that carry two digest algorithms of which only one agrees, one functionary key listed under two key ids (two lists of key id hash algorithms) whose two links differ; the layout has an intermediate CA of its own and the caller passes a list of additional intermediates with spare capacity whose backing array is compared before/after; 2 wrappers x 2 entry points; all histories of length<=2 plus 12 of length 3 (quick) / all of length<=3 plus 30 of length 4 (thorough) over the dictionaries {none, p (accepting), q (rejecting), r (a value containing another parameter's marker)} on ONE in-memory layout object: every outcome (verdict, summary, executed marker) must equal the outcome of a freshly loaded copy, and the serialisation of the layout object (payload, signatures, dumped envelope), of the key map and of the dictionary, and (entry point with a run directory of its own) the content of the inspected directory must be unchanged after every call; two sound chains whose layouts define one key id with different key material are verified alternately (6 verifications, all accepted); a sound nested chain verified alternately with a broken one, 30 rounds (failures leave nothing behind); each baseline is repeated R=16 (quick) / 64 (thorough) times and each history R/4 times with fresh maps. " +
 			"non-trivial = history of length>=2 or R>=2 with >=2 links in a step; distinct = (variant, history)",
 		Assumptions: []string{"the iteration order taken inside the library is not observable; reported are R, the number of distinct outcomes per case and the number of distinct orders a same-sized probe map showed in the same process"},
 		Workers:     func(string) int { return 16 },
